@@ -348,6 +348,11 @@ class Inotify:
             break
 
         with self._lock:
+            if self._closed:
+                # close() ran after the read completed and has released the descriptors:
+                # adding watches below would act on a closed (possibly re-used) fd.
+                return []
+
             event_list = []
             for wd, mask, cookie, name in Inotify._parse_event_buffer(event_buffer):
                 if wd == -1:
